@@ -313,7 +313,15 @@ def rule_witness_kept(ctx: Ctx, rep: Report) -> None:
     rep.floor(rule, 4)
 
 
+def rule_no_stale_cache_(ctx: Ctx, rep: Report) -> None:
+    """C17.no_stale_cache: a memoized mutable answer is never handed out or edited; a cached_property lives only in a frozen dataclass (see sigcommon.rule_no_stale_cache)."""
+    from rules.sigcommon import rule_no_stale_cache
+    rule_no_stale_cache(ctx, rep, "C17.no_stale_cache", ('btclib.p2p', 'btclib.block'), 1)
+
+
 RULES = [
+    ("C17.no_stale_cache", rule_no_stale_cache_),
+
     ("C17.witness_kept", rule_witness_kept),
     ("C17.params_forwarded", rule_params_forwarded_),
     ("C17.own_fields", rule_own_fields),
@@ -326,6 +334,10 @@ RULES = [
 ]
 
 CONTROLS = [
+    {"rule": "C17.no_stale_cache", "name": "the short-id key of a mutable message is computed once", "module": "btclib.p2p.compact_blocks",
+     "edit": lambda ctx: M.sub_module_expr(ctx, "btclib.p2p.compact_blocks", lambda n: isinstance(n, ast.Name) and n.id == "property" and isinstance(parent(n), ast.FunctionDef) and parent(n).name == "short_id_key",
+                                           "__import__('functools').cached_property")},
+
     {"rule": "C17.witness_kept", "name": "blocktxn strips the witnesses", "module": "btclib.p2p.compact_blocks",
      "edit": lambda ctx: M.sub_expr(ctx, "btclib.p2p.compact_blocks.BlockTxn.serialize", lambda n: isinstance(n, ast.keyword) and n.arg == "include_witness", "include_witness=False")},
     {"rule": "C17.filter_match", "name": "the target cursor advances once per value", "module": BF,
